@@ -106,7 +106,7 @@ PropC12(e) ==
        /\ e.list2 = o(v \/ el) /\ e.dup = "refused" /\ e.twoell = o(v)
        \* no name occurs twice anywhere in a tree, however the tree comes about
        /\ e.dupsib = "refused" /\ e.dupcousin = "refused" /\ e.duprename = "refused" /\ e.dupinsert = "refused"
-       /\ e.dupsame = "refused"
+       /\ e.dupsameU = "refused" /\ e.dupsameI = "refused" /\ e.dupsameF = "refused" /\ e.dupsameB = "refused" /\ e.dupsameT = "refused"
   /\ e.ev = "ctorbounds" =>
        LET lo == e.lo  hi == e.hi
            ok == ~lo.neg /\ (~hi.neg \/ hi.dec = <<1>>) /\ (hi.neg \/ Cmp(FromDec(lo.dec), FromDec(hi.dec)) <= 0) IN
